@@ -38,6 +38,8 @@ Definition call_in (cache : world) (oc : option pctx) (c : call) : Prop :=
   | CUpdateStatus st rv =>
       exists s cur upd coll claimed po, oc = Some (s, cur, upd, coll, claimed, po)
         /\ st = complete_rolling_update s (po_status po) /\ rv = s_rv s
+  | CPatchRev n =>                                  (* adoption of a revision: never for a set being deleted *)
+      exists s, w_set cache = Some s /\ s_deleting s = false
   | _ => True
   end.
 
@@ -53,10 +55,19 @@ Proof. destruct c; cbn; try tauto. Qed.
 
 Definition is_rev_or_read (c : call) : Prop :=
   match c with
-  | CListRevs _ | CGetSet | CGetRev _ | CUpdateRev _ _ _ | CPatchRev _ | CCreateRev _ _ _ | CDeleteRev _ => True
+  | CListRevs _ | CGetSet | CGetRev _ | CUpdateRev _ _ _ | CCreateRev _ _ _ | CDeleteRev _ => True
+  | _ => False
+  end.
+(* calls of the revision-adoption phase *)
+Definition adopt_call (cache : world) (c : call) : Prop :=
+  match c with
+  | CListRevs _ => True
+  | CGetSet | CUpdateRev _ _ _ | CPatchRev _ => exists s, w_set cache = Some s /\ s_deleting s = false
   | _ => False
   end.
 Lemma rev_or_read_ok cache oc c : is_rev_or_read c -> call_in cache oc c.
+Proof. destruct c; cbn; tauto. Qed.
+Lemma adopt_call_ok cache oc c : adopt_call cache c -> call_in cache oc c.
 Proof. destruct c; cbn; tauto. Qed.
 
 Section Lift.
@@ -70,11 +81,25 @@ Proof.
   induction l as [|r t IH]; cbn [sync_all]; msimp; try exact I; try apply IH.
 Qed.
 
-Lemma emits_adopt s : emits is_rev_or_read (adopt_orphan_revisions s).
+Lemma emits_list_revisions_adopt cache s : emits (adopt_call cache) (list_revisions s).
+Proof. unfold list_revisions, api_list_revs. msimp; exact I. Qed.
+
+Lemma emits_sync_all_adopt cache s : w_set cache = Some s -> s_deleting s = false ->
+  forall l, emits (adopt_call cache) (sync_all l).
 Proof.
-  unfold adopt_orphan_revisions, api_get_set. msimp.
-  all: try exact I; try apply emits_list_revisions; try apply emits_sync_all.
-  all: apply emits_forM; intros r _; msimp; exact I.
+  intros Hs Hd. induction l as [|r t IH]; cbn [sync_all]; msimp; try apply IH; cbn; exists s; split; assumption.
+Qed.
+
+Lemma emits_adopt cache s : w_set cache = Some s -> emits (adopt_call cache) (adopt_orphan_revisions s).
+Proof.
+  intros Hs. unfold adopt_orphan_revisions.
+  apply emits_bind; [apply emits_list_revisions_adopt|]. intros revs.
+  destruct (s_deleting s) eqn:Hd; [rewrite andb_false_r; apply emits_ret|].
+  assert (Hok : exists s0, w_set cache = Some s0 /\ s_deleting s0 = false) by (exists s; split; assumption).
+  destruct (existsb _ revs); cbn [andb negb]; [|apply emits_ret].
+  unfold api_get_set. msimp; try exact Hok.
+  all: try apply (emits_sync_all_adopt cache s Hs Hd).
+  all: apply emits_forM; intros r _; unfold api_adopt_rev; msimp; exact Hok.
 Qed.
 
 Lemma emits_update_controller_revision : forall fuel clone n last,
@@ -268,9 +293,9 @@ Proof.
   2:{ inversion E; subst. exists None. split; apply (Hnone st'). }
   apply bind_inv in E. destruct E as [(u & s1 & E1 & E)|[E1 _]].
   2:{ exists None. split; [intros c Hc; discriminate|].
-      eapply log_ext_weaken; [apply rev_or_read_ok | eapply emits_run; [apply emits_adopt | exact E1]]. }
+      eapply log_ext_weaken; [apply adopt_call_ok | eapply emits_run; [apply (emits_adopt cache s Hs) | exact E1]]. }
   assert (L1 : forall oc, log_ext (call_in cache oc) st s1).
-  { intros oc. eapply log_ext_weaken; [apply rev_or_read_ok | eapply emits_run; [apply emits_adopt | exact E1]]. }
+  { intros oc. eapply log_ext_weaken; [apply adopt_call_ok | eapply emits_run; [apply (emits_adopt cache s Hs) | exact E1]]. }
   apply bind_inv in E. destruct E as [(x & s2 & E2 & E)|[E2 _]].
   2:{ exists None. split; [intros c Hc; discriminate|]. eapply log_ext_trans; [apply L1|].
       eapply log_ext_weaken; [apply claim_call_in|].
@@ -410,4 +435,30 @@ Proof.
   split; [exact Hv|]. split; [exact Hd|]. split; [exact H1|]. split; [exact H2|].
   split; [unfold pod_ordinals; rewrite H2; apply in_range_iff_desired; exact H4|].
   split; [symmetry; exact Hn|]. split; [symmetry; exact Hrv | exact H6].
+Qed.
+
+(* a set that is being deleted: no pod or claim is created, deleted or modified, nothing is adopted
+   or released (pods or revisions) *)
+Definition touches_pods_or_adopts (c : call) : bool :=
+  match c with
+  | CDeletePod _ | CCreatePod _ _ _ | CUpdatePod _ | CCreateClaim _ | CPatchPod _ _ | CPatchRev _ => true
+  | _ => false
+  end.
+Theorem reconcile_deleting_leaves_alone hashes api cache faults o log w' s :
+  reconcile hashes api cache faults = (o, log, w') -> w_set cache = Some s -> s_deleting s = true ->
+  forall c e, In (c, e) log -> touches_pods_or_adopts c = false.
+Proof.
+  intros Hr Hs Hd c e Hin. destruct (reconcile_ctx hashes _ _ _ _ _ _ Hr) as (oc & Hv & F).
+  rewrite Forall_forall in F. specialize (F _ Hin). cbn [fst] in F.
+  assert (Hctx : forall s0 cur upd coll claimed po, oc = Some (s0, cur, upd, coll, claimed, po) -> po_acts po = []).
+  { intros s0 cur upd coll claimed po ->. specialize (Hv _ eq_refl).
+    pose proof Hv as (Hs0 & _). rewrite Hs in Hs0. inversion Hs0; subst s0.
+    eapply ctx_deleting; eassumption. }
+  destruct c; cbn in *; try reflexivity; exfalso.
+  - destruct F as (s0 & Hs0 & Hd0). rewrite Hs in Hs0. inversion Hs0; subst. congruence.
+  - destruct F as (s0 & p & Hs0 & _ & _ & Hd0 & _). rewrite Hs in Hs0. inversion Hs0; subst. congruence.
+  - destruct F as (s0 & cur & upd & coll & claimed & po & p & Hoc & Ha & _). rewrite (Hctx _ _ _ _ _ _ Hoc) in Ha. destruct Ha.
+  - destruct F as (s0 & cur & upd & coll & claimed & po & p & Hoc & [Ha|Ha]); rewrite (Hctx _ _ _ _ _ _ Hoc) in Ha; destruct Ha.
+  - destruct F as (s0 & cur & upd & coll & claimed & po & p & Hoc & Ha & _). rewrite (Hctx _ _ _ _ _ _ Hoc) in Ha. destruct Ha.
+  - destruct F as (s0 & cur & upd & coll & claimed & po & p & Hoc & Ha). rewrite (Hctx _ _ _ _ _ _ Hoc) in Ha. destruct Ha.
 Qed.
